@@ -2,8 +2,7 @@ package main
 
 import (
 	"fmt"
-	"go/ast"
-	"go/constant"
+		"go/constant"
 	"go/token"
 	"go/types"
 	"path/filepath"
@@ -14,7 +13,7 @@ import (
 
 func init() {
 	register("C17", propInfo{
-		Explanation: "Decided for the portable implementation, by a shape certificate on maskGo's syntax with constant evaluation (no execution): (i) key64 replicates the key into both halves; (ii) every unrolled loop guarded by len(b) >= N consists of load/xor/store pairs over identical little-endian word ranges that tile [0,N) without gap or overlap, uses key64 for 64-bit and key for 32-bit words, N ≡ 0 (mod 4), and ends with b = b[N:]; (iii) the tail XORs byte by byte with byte(key) and rotates the key right by 8 per byte; (iv) key is assigned nowhere else and is returned. From (i)–(iv) the start of b stays ≡ 0 (mod 4) relative to the original start through all word loops, a little-endian word XOR with the replicated key XORs byte j with key byte j mod 4, and the returned key is the input rotated by 8·(len mod 4): the RFC 6455 §5.3 transform, chunk-composable. Callers thread the returned key; mask() forwards to maskGo on every analysed architecture; the assembly is unreachable.",
+		Explanation: "Decided for the portable implementation, by a shape certificate on the SSA form of maskGo (values and natural loops, no execution; a helper outside the reference tree that finishes the job is followed): (i) the 64-bit key is uint64(key)<<32|uint64(key) of the key parameter; (ii) every word loop has one loop-carried slice b', is entered only under len(b') >= N with N ≡ 0 (mod 4), consists of LittleEndian load/xor/store triples over equal constant windows of b' that tile [0,N) without gap or overlap, uses the replicated key for 64-bit and key for 32-bit words, and continues with b'[N:]; (iii) one byte loop runs an index over 0..len(b)-1 of the slice value every word loop flows into, XORs b[i] with byte(k) and continues with k rotated right by 8, k starting at the key parameter, and nothing follows it; (iv) the loop-carried k is returned and there is no other store or call. From (i)–(iv) the start of b stays ≡ 0 (mod 4) relative to the original start through all word loops, a little-endian word XOR with the replicated key XORs byte j with key byte j mod 4, and the returned key is the input rotated by 8·(len mod 4): the RFC 6455 §5.3 transform, chunk-composable. Callers thread the returned key; mask() forwards to maskGo on every analysed architecture; the assembly is unreachable.",
 		Decides: []string{
 			"C17.shape: certificate (i)–(iv) on maskGo",
 			"C17.thread: every mask call stores its result back where its key came from (msgReader.maskKey; loop-carried key in writeFramePayload starting at writeHeader.maskKey) or masks a whole control payload once",
@@ -34,303 +33,616 @@ func runC17(p *Program, r *Report) {
 	c17safe(p, r, "C17.safe")
 }
 
-// ---- shape certificate on the AST ---------------------------------------------------------------------------------
+// ---- shape certificate on the SSA form -------------------------------------------------------------------------------
+//
+// The certificate is checked on values and loops of the SSA form (not on syntax), so that renaming locals, re-spelling
+// the loops or moving the tail into a helper does not matter:
+//   (i)   K64 = uint64(key)<<32 | uint64(key) for the function's key parameter;
+//   (ii)  every word loop has a single loop-carried value b' (a slice), is entered only when len(b') >= N, N ≡ 0 (mod 4),
+//         consists of LittleEndian load / xor / store triples over equal constant windows of b' that tile [0,N) exactly
+//         once, with K64 for 64-bit and key for 32-bit words, and continues with b'[N:];
+//   (iii) exactly one byte loop XORs b[i] with byte(k) for i = 0..len(b)-1 once each, k starting at key and continuing
+//         with k rotated right by 8; it runs over the slice value all word loops flow into, and nothing follows it;
+//   (iv)  the loop-carried k of the byte loop is what is returned; there are no other stores or calls.
 
-type shapeCtx struct {
-	p    *Program
-	info *types.Info
-	errs []string
-	b    types.Object // parameter b
-	key  types.Object // parameter key
-	k64  types.Object // key64
-	nLoops, nPairs int
+type maskCert struct {
+	p      *Program
+	errs   []string
+	nLoops int
+	nPairs int
 }
 
-func (c *shapeCtx) fail(n ast.Node, format string, a ...interface{}) {
-	c.errs = append(c.errs, c.p.Pos(n.Pos())+": "+fmt.Sprintf(format, a...))
+func (c *maskCert) fail(pos token.Pos, format string, a ...interface{}) {
+	c.errs = append(c.errs, c.p.Pos(pos)+": "+fmt.Sprintf(format, a...))
 }
 
-func (c *shapeCtx) constInt(e ast.Expr) (int64, bool) {
-	if tv, ok := c.info.Types[e]; ok && tv.Value != nil && tv.Value.Kind() == constant.Int {
-		return constant.Int64Val(tv.Value)
+func ssaConstInt(v ssa.Value) (int64, bool) {
+	if k, ok := v.(*ssa.Const); ok && k.Value != nil && k.Value.Kind() == constant.Int {
+		return constant.Int64Val(k.Value)
 	}
 	return 0, false
 }
 
-func (c *shapeCtx) isObj(e ast.Expr, o types.Object) bool {
-	id, ok := ast.Unparen(e).(*ast.Ident)
-	return ok && o != nil && c.info.Uses[id] == o
+// leMethod recognises a call of encoding/binary.LittleEndian.<name>.
+func leMethod(call *ssa.Call) (string, []ssa.Value, bool) {
+	f := call.Call.StaticCallee()
+	if f == nil || f.Signature.Recv() == nil || len(call.Call.Args) == 0 {
+		return "", nil, false
+	}
+	if f.Signature.Recv().Type().String() != "encoding/binary.littleEndian" {
+		return "", nil, false
+	}
+	return f.Name(), call.Call.Args[1:], true
 }
 
-// lenGuard matches len(b) >= N.
-func (c *shapeCtx) lenGuard(e ast.Expr) (int64, bool) {
-	be, ok := ast.Unparen(e).(*ast.BinaryExpr)
-	if !ok || be.Op != token.GEQ {
-		return 0, false
-	}
-	call, ok := be.X.(*ast.CallExpr)
-	if !ok || len(call.Args) != 1 || !c.isObj(call.Args[0], c.b) {
-		return 0, false
-	}
-	if id, ok := call.Fun.(*ast.Ident); !ok || id.Name != "len" {
-		return 0, false
-	}
-	return c.constInt(be.Y)
-}
-
-// leCall matches binary.LittleEndian.<name>(args...).
-func (c *shapeCtx) leCall(e ast.Expr) (string, []ast.Expr, bool) {
-	call, ok := ast.Unparen(e).(*ast.CallExpr)
-	if !ok {
-		return "", nil, false
-	}
-	sel, ok := call.Fun.(*ast.SelectorExpr)
-	if !ok {
-		return "", nil, false
-	}
-	inner, ok := sel.X.(*ast.SelectorExpr)
-	if !ok || inner.Sel.Name != "LittleEndian" {
-		return "", nil, false
-	}
-	if id, ok := inner.X.(*ast.Ident); !ok || c.info.Uses[id] == nil {
-		return "", nil, false
-	} else if pn, ok := c.info.Uses[id].(*types.PkgName); !ok || pn.Imported().Path() != "encoding/binary" {
-		return "", nil, false
-	}
-	return sel.Sel.Name, call.Args, true
-}
-
-// sliceRange of b or b[lo:hi]; width is the word size in bytes when the slice is open (plain b).
-func (c *shapeCtx) sliceRange(e ast.Expr, width int64) (lo, hi int64, ok bool) {
-	e = ast.Unparen(e)
-	if c.isObj(e, c.b) {
-		return 0, width, true
-	}
-	se, isS := e.(*ast.SliceExpr)
-	if !isS || !c.isObj(se.X, c.b) || se.Slice3 {
-		return 0, 0, false
-	}
-	if se.Low != nil {
-		if lo, ok = c.constInt(se.Low); !ok {
-			return 0, 0, false
+// window describes v as base[lo:hi] for a byte-slice value base (v itself: [0:width)).
+func window(v ssa.Value, width int64) (base ssa.Value, lo, hi int64, ok bool) {
+	if sl, isS := v.(*ssa.Slice); isS && sl.Max == nil {
+		lo = 0
+		if sl.Low != nil {
+			if lo, ok = ssaConstInt(sl.Low); !ok {
+				return nil, 0, 0, false
+			}
 		}
+		if sl.High == nil {
+			return sl.X, lo, lo + width, true
+		}
+		if hi, ok = ssaConstInt(sl.High); !ok {
+			return nil, 0, 0, false
+		}
+		return sl.X, lo, hi, true
 	}
-	if se.High == nil {
-		return lo, lo + width, true
-	}
-	hi, ok = c.constInt(se.High)
-	return lo, hi, ok
+	return v, 0, width, true
 }
 
-func (c *shapeCtx) wordLoop(f *ast.ForStmt) {
-	N, ok := c.lenGuard(f.Cond)
-	if !ok || f.Init != nil || f.Post != nil {
-		c.fail(f, "loop is not of the form `for len(b) >= N`")
-		return
+func isConvOf(v ssa.Value, x ssa.Value, kind types.BasicKind) bool {
+	cv, ok := v.(*ssa.Convert)
+	if !ok || cv.X != x {
+		return false
 	}
-	c.nLoops++
-	if N%4 != 0 || N <= 0 {
-		c.fail(f, "loop width %d is not a positive multiple of 4", N)
+	b, ok := cv.Type().Underlying().(*types.Basic)
+	return ok && b.Kind() == kind
+}
+
+// isKey64: uint64(key)<<32 | uint64(key) in either operand order.
+func isKey64(v ssa.Value, key ssa.Value) bool {
+	or, ok := v.(*ssa.BinOp)
+	if !ok || or.Op != token.OR {
+		return false
 	}
-	stmts := f.Body.List
-	if len(stmts) == 0 {
-		c.fail(f, "empty loop body")
-		return
+	shifted := func(x ssa.Value) bool {
+		sh, ok := x.(*ssa.BinOp)
+		if !ok || sh.Op != token.SHL || !isConvOf(sh.X, key, types.Uint64) {
+			return false
+		}
+		n, ok := ssaConstInt(sh.Y)
+		return ok && n == 32
 	}
-	// last statement: b = b[N:]
-	last, ok := stmts[len(stmts)-1].(*ast.AssignStmt)
-	okAdv := false
-	if ok && last.Tok == token.ASSIGN && len(last.Lhs) == 1 && c.isObj(last.Lhs[0], c.b) {
-		if se, ok := last.Rhs[0].(*ast.SliceExpr); ok && c.isObj(se.X, c.b) && se.High == nil && se.Low != nil {
-			if lo, ok := c.constInt(se.Low); ok && lo == N {
-				okAdv = true
+	return shifted(or.X) && isConvOf(or.Y, key, types.Uint64) || shifted(or.Y) && isConvOf(or.X, key, types.Uint64)
+}
+
+// isRotr8: k rotated right by 8 bits: bits.RotateLeft32(k, -8) or k>>8 | k<<24.
+func isRotr8(v ssa.Value, k ssa.Value) bool {
+	if call, ok := v.(*ssa.Call); ok {
+		if f := call.Call.StaticCallee(); f != nil && f.Pkg != nil && f.Pkg.Pkg.Path() == "math/bits" && f.Name() == "RotateLeft32" && len(call.Call.Args) == 2 && call.Call.Args[0] == k {
+			n, ok := ssaConstInt(call.Call.Args[1])
+			return ok && (n == -8 || n == 24)
+		}
+		return false
+	}
+	or, ok := v.(*ssa.BinOp)
+	if !ok || (or.Op != token.OR && or.Op != token.XOR && or.Op != token.ADD) {
+		return false
+	}
+	sh := func(x ssa.Value, op token.Token, by int64) bool {
+		b, ok := x.(*ssa.BinOp)
+		if !ok || b.Op != op || b.X != k {
+			return false
+		}
+		n, ok := ssaConstInt(b.Y)
+		return ok && n == by
+	}
+	return sh(or.X, token.SHR, 8) && sh(or.Y, token.SHL, 24) || sh(or.Y, token.SHR, 8) && sh(or.X, token.SHL, 24)
+}
+
+type natLoop struct {
+	head   *ssa.BasicBlock
+	blocks map[*ssa.BasicBlock]bool
+}
+
+func naturalLoops(fn *ssa.Function) []*natLoop {
+	byHead := map[*ssa.BasicBlock]*natLoop{}
+	var out []*natLoop
+	for _, b := range fn.Blocks {
+		for _, s := range b.Succs {
+			if s.Dominates(b) { // back edge b → s
+				l := byHead[s]
+				if l == nil {
+					l = &natLoop{head: s, blocks: map[*ssa.BasicBlock]bool{s: true}}
+					byHead[s] = l
+					out = append(out, l)
+				}
+				stack := []*ssa.BasicBlock{b}
+				for len(stack) > 0 {
+					x := stack[len(stack)-1]
+					stack = stack[:len(stack)-1]
+					if l.blocks[x] {
+						continue
+					}
+					l.blocks[x] = true
+					stack = append(stack, x.Preds...)
+				}
 			}
 		}
 	}
-	if !okAdv {
-		c.fail(f, "loop for len(b) >= %d does not end with b = b[%d:]", N, N)
+	return out
+}
+
+// lenGuard: the smallest N such that taking the edge head→body implies len(of) >= N.
+func lenGuard(head *ssa.BasicBlock, body *ssa.BasicBlock) (of ssa.Value, N int64, ok bool) {
+	iff, isIf := head.Instrs[len(head.Instrs)-1].(*ssa.If)
+	if !isIf {
+		return nil, 0, false
 	}
-	covered := make([]bool, N)
-	body := stmts[:len(stmts)-1]
-	if len(body)%2 != 0 {
-		c.fail(f, "loop body is not a sequence of load/store pairs")
+	cmp, isB := iff.Cond.(*ssa.BinOp)
+	if !isB {
+		return nil, 0, false
+	}
+	onTrue := head.Succs[0] == body
+	lenOf := func(v ssa.Value) ssa.Value {
+		if call, ok := v.(*ssa.Call); ok {
+			if b, ok := call.Call.Value.(*ssa.Builtin); ok && b.Name() == "len" && len(call.Call.Args) == 1 {
+				return call.Call.Args[0]
+			}
+		}
+		return nil
+	}
+	op, x, y := cmp.Op, cmp.X, cmp.Y
+	if lenOf(x) == nil && lenOf(y) != nil { // c OP len  ≡  len OP' c
+		x, y = y, x
+		op = map[token.Token]token.Token{token.LSS: token.GTR, token.GTR: token.LSS, token.LEQ: token.GEQ, token.GEQ: token.LEQ, token.EQL: token.EQL, token.NEQ: token.NEQ}[op]
+	}
+	of = lenOf(x)
+	cst, isC := ssaConstInt(y)
+	if of == nil || !isC {
+		return nil, 0, false
+	}
+	switch {
+	case op == token.GEQ && onTrue, op == token.LSS && !onTrue:
+		return of, cst, true
+	case op == token.GTR && onTrue, op == token.LEQ && !onTrue:
+		return of, cst + 1, true
+	case op == token.NEQ && onTrue && cst == 0, op == token.EQL && !onTrue && cst == 0:
+		return of, 1, true
+	}
+	return nil, 0, false
+}
+
+// run checks fn (maskGo, or a helper it ends in) and returns false when the certificate cannot be established.
+func (c *maskCert) run(fn *ssa.Function, depth int) {
+	if len(fn.Params) != 2 || fn.Params[0].Type().String() != "[]byte" || fn.Params[1].Type().String() != "uint32" || fn.Signature.Results().Len() != 1 {
+		c.fail(fn.Pos(), "%s does not have the signature (b []byte, key uint32) uint32", c.p.rawName(fn))
 		return
 	}
-	for i := 0; i < len(body); i += 2 {
-		ld, ok1 := body[i].(*ast.AssignStmt)
-		st, ok2 := body[i+1].(*ast.ExprStmt)
-		if !ok1 || !ok2 || len(ld.Lhs) != 1 || len(ld.Rhs) != 1 {
-			c.fail(body[i], "statement pair is not `v := LE.UintW(b[lo:hi]); LE.PutUintW(b[lo:hi], v^K)`")
-			return
+	b0, key0 := ssa.Value(fn.Params[0]), ssa.Value(fn.Params[1])
+	loops := naturalLoops(fn)
+	inLoop := map[*ssa.BasicBlock]*natLoop{}
+	for _, l := range loops {
+		for bl := range l.blocks {
+			if cur := inLoop[bl]; cur == nil || len(l.blocks) < len(cur.blocks) {
+				inLoop[bl] = l
+			}
 		}
-		vid, ok := ld.Lhs[0].(*ast.Ident)
-		if !ok {
-			c.fail(ld, "load target is not a variable")
-			return
-		}
-		vobj := c.info.Defs[vid]
-		if vobj == nil {
-			vobj = c.info.Uses[vid]
-		}
-		lname, largs, ok := c.leCall(ld.Rhs[0])
-		if !ok || len(largs) != 1 || (lname != "Uint64" && lname != "Uint32") {
-			c.fail(ld, "load is not binary.LittleEndian.Uint64/Uint32")
-			return
-		}
-		W := int64(8)
-		if lname == "Uint32" {
-			W = 4
-		}
-		lo, hi, ok := c.sliceRange(largs[0], W)
-		if !ok || hi-lo != W {
-			c.fail(ld, "load range is not a constant %d-byte window of b", W)
-			return
-		}
-		sname, sargs, ok := c.leCall(st.X)
-		if !ok || len(sargs) != 2 || sname != "Put"+lname {
-			c.fail(st, "store is not binary.LittleEndian.Put%s", lname)
-			return
-		}
-		slo, shi, ok := c.sliceRange(sargs[0], W)
-		if !ok || slo != lo || shi != hi {
-			c.fail(st, "store range [%d:%d) differs from load range [%d:%d)", slo, shi, lo, hi)
-			return
-		}
-		x, ok := ast.Unparen(sargs[1]).(*ast.BinaryExpr)
-		if !ok || x.Op != token.XOR {
-			c.fail(st, "stored value is not v ^ K")
-			return
-		}
-		want := c.k64
-		if W == 4 {
-			want = c.key
-		}
-		if !((c.isObj(x.X, vobj) && c.isObj(x.Y, want)) || (c.isObj(x.Y, vobj) && c.isObj(x.X, want))) {
-			c.fail(st, "stored value is not the loaded word XOR %s", map[int64]string{8: "key64", 4: "key"}[W])
-			return
-		}
-		for k := lo; k < hi; k++ {
-			if k < 0 || k >= N {
-				c.fail(st, "range [%d:%d) outside [0,%d)", lo, hi, N)
+	}
+	for _, l := range loops {
+		for _, o := range loops {
+			if o != l && o.blocks[l.head] {
+				c.fail(l.head.Instrs[0].Pos(), "nested loops")
 				return
 			}
-			if covered[k] {
-				c.fail(st, "byte %d of the %d-byte block is XORed twice", k, N)
-				return
+		}
+	}
+	// B: the values that denote "the rest of b": the parameter, loop-carried slices advanced by b'[N:], merges of those
+	isB := map[ssa.Value]bool{b0: true}
+	for changed := true; changed; {
+		changed = false
+		for _, bl := range fn.Blocks {
+			for _, in := range bl.Instrs {
+				phi, ok := in.(*ssa.Phi)
+				if !ok || isB[phi] || phi.Type().String() != "[]byte" {
+					continue
+				}
+				good := true
+				for i, e := range phi.Edges {
+					if isB[e] {
+						continue
+					}
+					if sl, isS := e.(*ssa.Slice); isS && sl.X == phi && bl.Dominates(bl.Preds[i]) {
+						continue // back edge b'[N:], checked with its loop
+					}
+					good = false
+				}
+				if good {
+					isB[phi] = true
+					changed = true
+				}
 			}
-			covered[k] = true
-		}
-		c.nPairs++
-	}
-	for k, v := range covered {
-		if !v {
-			c.fail(f, "byte %d of the %d-byte block is never XORed (gap in the tiling)", k, N)
-			return
 		}
 	}
-}
-
-func (c *shapeCtx) stmts(list []ast.Stmt, top bool) {
-	for _, s := range list {
-		switch x := s.(type) {
-		case *ast.IfStmt:
-			if _, ok := c.lenGuard(x.Cond); !ok || x.Else != nil || x.Init != nil {
-				c.fail(x, "if statement is not a plain `if len(b) >= N` wrapper")
+	accounted := map[ssa.Instruction]bool{}
+	var byteLoop *natLoop
+	var tailK *ssa.Phi
+	var tailB ssa.Value
+	wordPhi := map[*natLoop]*ssa.Phi{}
+	for _, l := range loops {
+		pos := l.head.Instrs[0].Pos()
+		var phis []*ssa.Phi
+		for _, in := range l.head.Instrs {
+			if ph, ok := in.(*ssa.Phi); ok {
+				phis = append(phis, ph)
+			}
+		}
+		// body blocks in order, straight-line
+		var body []*ssa.BasicBlock
+		for _, bl := range fn.Blocks {
+			if l.blocks[bl] && bl != l.head {
+				body = append(body, bl)
+				if len(bl.Succs) != 1 {
+					c.fail(bl.Instrs[0].Pos(), "branch inside a loop body")
+				}
+			}
+		}
+		if len(body) == 0 {
+			c.fail(pos, "loop without a body block")
+			continue
+		}
+		entry := body[0]
+		for _, s := range l.head.Succs {
+			if l.blocks[s] && s != l.head {
+				entry = s
+			}
+		}
+		if len(phis) == 1 && isB[phis[0]] {
+			// ---- word loop
+			c.nLoops++
+			bl := phis[0]
+			wordPhi[l] = bl
+			of, N, ok := lenGuard(l.head, entry)
+			if !ok || of != ssa.Value(bl) {
+				c.fail(pos, "word loop is not entered under a guard len(b') >= N on its own loop-carried slice")
 				continue
 			}
-			c.stmts(x.Body.List, false)
-		case *ast.AssignStmt:
-			// key64 := uint64(key)<<32 | uint64(key)
-			if x.Tok == token.DEFINE && len(x.Lhs) == 1 {
-				if id, ok := x.Lhs[0].(*ast.Ident); ok && id.Name == "key64" && c.k64 == nil {
-					c.k64 = c.info.Defs[id]
-					if !c.isKey64(x.Rhs[0]) {
-						c.fail(x, "key64 is not uint64(key)<<32 | uint64(key)")
+			if N <= 0 || N%4 != 0 {
+				c.fail(pos, "loop width %d is not a positive multiple of 4", N)
+				continue
+			}
+			// back edge value b'[N:]
+			for i, e := range bl.Edges {
+				if l.head.Dominates(l.head.Preds[i]) && l.blocks[l.head.Preds[i]] {
+					sl, isS := e.(*ssa.Slice)
+					lo, okc := int64(0), false
+					if isS && sl.Low != nil {
+						lo, okc = ssaConstInt(sl.Low)
+					}
+					if !isS || sl.X != ssa.Value(bl) || sl.High != nil || sl.Max != nil || !okc || lo != N {
+						c.fail(pos, "loop entered under len(b') >= %d does not continue with b'[%d:]", N, N)
+					} else {
+						accounted[sl] = true
+					}
+				}
+			}
+			covered := make([]bool, N)
+			for _, blk := range body {
+				for _, in := range blk.Instrs {
+					call, isCall := in.(*ssa.Call)
+					if !isCall {
+						continue
+					}
+					name, args, isLE := leMethod(call)
+					if !isLE {
+						continue
+					}
+					switch name {
+					case "Uint64", "Uint32":
+						accounted[call] = true // a pure load; its use is checked at the store
+					case "PutUint64", "PutUint32":
+						W := int64(8)
+						want := "Uint64"
+						if name == "PutUint32" {
+							W, want = 4, "Uint32"
+						}
+						base, lo, hi, okw := window(args[0], W)
+						if !okw || base != ssa.Value(bl) || hi-lo != W {
+							c.fail(call.Pos(), "store does not go to a constant %d-byte window of the loop's slice", W)
+							continue
+						}
+						x, isX := args[1].(*ssa.BinOp)
+						if !isX || x.Op != token.XOR {
+							c.fail(call.Pos(), "stored value is not (loaded word) ^ K")
+							continue
+						}
+						okPair := false
+						for _, pr := range [][2]ssa.Value{{x.X, x.Y}, {x.Y, x.X}} {
+							ld, isLd := pr[0].(*ssa.Call)
+							if !isLd {
+								continue
+							}
+							ln, largs, isLE2 := leMethod(ld)
+							if !isLE2 || ln != want || !l.blocks[ld.Block()] {
+								continue
+							}
+							lb, llo, lhi, okl := window(largs[0], W)
+							if !okl || lb != ssa.Value(bl) || llo != lo || lhi != hi {
+								continue
+							}
+							if W == 8 && isKey64(pr[1], key0) || W == 4 && pr[1] == key0 {
+								okPair = true
+							}
+						}
+						if !okPair {
+							c.fail(call.Pos(), "stored value is not the word loaded from the same window XOR %s", map[int64]string{8: "uint64(key)<<32|uint64(key)", 4: "key"}[W])
+							continue
+						}
+						for k := lo; k < hi; k++ {
+							if k < 0 || k >= N {
+								c.fail(call.Pos(), "window [%d:%d) outside [0,%d)", lo, hi, N)
+								break
+							}
+							if covered[k] {
+								c.fail(call.Pos(), "byte %d of the %d-byte block is XORed twice", k, N)
+								break
+							}
+							covered[k] = true
+						}
+						accounted[call] = true
+						c.nPairs++
+					default:
+						c.fail(call.Pos(), "unexpected LittleEndian.%s", name)
+					}
+				}
+			}
+			for k, v := range covered {
+				if !v {
+					c.fail(pos, "byte %d of the %d-byte block is never XORed (gap in the tiling)", k, N)
+					break
+				}
+			}
+			continue
+		}
+		// ---- byte loop: loop-carried k (uint32) and index i (int)
+		var kPhi, iPhi *ssa.Phi
+		for _, ph := range phis {
+			switch ph.Type().String() {
+			case "uint32":
+				kPhi = ph
+			case "int":
+				iPhi = ph
+			}
+		}
+		if len(phis) != 2 || kPhi == nil || iPhi == nil {
+			c.fail(pos, "loop is neither a word loop (one loop-carried slice) nor a byte loop (loop-carried key and index)")
+			continue
+		}
+		if byteLoop != nil {
+			c.fail(pos, "more than one byte loop")
+			continue
+		}
+		byteLoop, tailK = l, kPhi
+		back := func(ph *ssa.Phi) (init []ssa.Value, next ssa.Value) {
+			for i, e := range ph.Edges {
+				if l.blocks[l.head.Preds[i]] {
+					next = e
+				} else {
+					init = append(init, e)
+				}
+			}
+			return
+		}
+		kInit, kNext := back(kPhi)
+		for _, v := range kInit {
+			if v != key0 {
+				c.fail(pos, "the byte loop does not start with the key parameter")
+			}
+		}
+		if kNext == nil || !isRotr8(kNext, kPhi) {
+			c.fail(pos, "the byte loop does not continue with the key rotated right by 8 bits")
+		} else if in, ok := kNext.(ssa.Instruction); ok {
+			accounted[in] = true
+		}
+		iInit, iNext := back(iPhi)
+		// index used in the body and its range
+		var idx ssa.Value
+		guardOK := false
+		if iff, ok := l.head.Instrs[len(l.head.Instrs)-1].(*ssa.If); ok && l.head.Succs[0] == entry {
+			if cmp, ok := iff.Cond.(*ssa.BinOp); ok && cmp.Op == token.LSS {
+				idx = cmp.X
+				lenOK := false
+				if call, ok := cmp.Y.(*ssa.Call); ok {
+					if bi, ok := call.Call.Value.(*ssa.Builtin); ok && bi.Name() == "len" && isB[call.Call.Args[0]] {
+						tailB = call.Call.Args[0]
+						lenOK = true
+					}
+				}
+				one := func(v ssa.Value) bool { n, ok := ssaConstInt(v); return ok && n == 1 }
+				isInc := func(v ssa.Value) bool {
+					a, ok := v.(*ssa.BinOp)
+					return ok && a.Op == token.ADD && (a.X == ssa.Value(iPhi) && one(a.Y) || a.Y == ssa.Value(iPhi) && one(a.X))
+				}
+				initIs := func(n int64) bool {
+					for _, v := range iInit {
+						if k, ok := ssaConstInt(v); !ok || k != n {
+							return false
+						}
+					}
+					return len(iInit) > 0
+				}
+				switch {
+				case idx == ssa.Value(iPhi) && initIs(0) && iNext != nil && isInc(iNext): // for i := 0; i < len(b); i++
+					guardOK = lenOK
+				case isInc(idx) && initIs(-1) && iNext == idx: // for i := range b
+					guardOK = lenOK
+				}
+			}
+		}
+		if !guardOK {
+			c.fail(pos, "the byte loop does not run its index over 0..len(b)-1 once each")
+			continue
+		}
+		nStores := 0
+		for _, blk := range body {
+			for _, in := range blk.Instrs {
+				st, ok := in.(*ssa.Store)
+				if !ok {
+					continue
+				}
+				nStores++
+				ia, okA := st.Addr.(*ssa.IndexAddr)
+				x, okX := st.Val.(*ssa.BinOp)
+				good := okA && okX && x.Op == token.XOR && ia.X == tailB && ia.Index == idx
+				if good {
+					good = false
+					for _, pr := range [][2]ssa.Value{{x.X, x.Y}, {x.Y, x.X}} {
+						ld, isLd := pr[0].(*ssa.UnOp)
+						if !isLd || ld.Op != token.MUL {
+							continue
+						}
+						la, isIA := ld.X.(*ssa.IndexAddr)
+						if isIA && la.X == tailB && la.Index == idx && isConvOf(pr[1], kPhi, types.Uint8) {
+							good = true
+						}
+					}
+				}
+				if !good {
+					c.fail(st.Pos(), "the byte loop does not do b[i] = b[i] ^ byte(k) on the remaining slice")
+				} else {
+					accounted[st] = true
+				}
+			}
+		}
+		if nStores != 1 {
+			c.fail(pos, "the byte loop has %d stores (want one)", nStores)
+		}
+	}
+	// (iv) nothing else has an effect; the return value
+	var cont *ssa.Function
+	for _, bl := range fn.Blocks {
+		for _, in := range bl.Instrs {
+			switch x := in.(type) {
+			case *ssa.Store, *ssa.MapUpdate, *ssa.Send, *ssa.Go, *ssa.Defer, *ssa.Panic:
+				if !accounted[in] {
+					c.fail(in.Pos(), "effect outside the certified loops: %s", in.String())
+				}
+			case *ssa.Slice:
+				if isB[x.X] && !accounted[x] {
+					if _, lo, _, ok := window(x, 0); !(ok && inLoop[bl] != nil && wordPhi[inLoop[bl]] == x.X && lo >= 0) {
+						c.fail(x.Pos(), "the remaining slice is re-sliced outside the certified pattern")
+					}
+				}
+			case *ssa.Call:
+				if accounted[in] {
+					continue
+				}
+				if bi, ok := x.Call.Value.(*ssa.Builtin); ok && (bi.Name() == "len" || bi.Name() == "cap") {
+					continue
+				}
+				if _, _, isLE := leMethod(x); isLE {
+					c.fail(x.Pos(), "LittleEndian access outside a certified loop")
+					continue
+				}
+				if f := x.Call.StaticCallee(); f != nil && c.p.isLib(f) && f.Parent() == nil && !knownFuncs[c.p.rawName(f)] && depth < 3 {
+					// a helper outside the reference tree that finishes the job: maskGo must return its result
+					cont = f
+					ok := len(x.Call.Args) == 2 && x.Call.Args[1] == key0 && isB[x.Call.Args[0]] && byteLoop == nil
+					for _, ref := range *x.Referrers() {
+						if _, isRet := ref.(*ssa.Return); !isRet {
+							if _, isDbg := ref.(*ssa.DebugRef); !isDbg {
+								ok = false
+							}
+						}
+					}
+					// the helper must see the slice all word loops flow into
+					if ok {
+						tailB = x.Call.Args[0]
+					} else {
+						c.fail(x.Pos(), "call of %s is not `return helper(rest of b, key)` after the word loops", c.p.rawName(f))
 					}
 					continue
 				}
-			}
-			c.fail(x, "unexpected assignment %s", types.ExprString(x.Lhs[0]))
-		case *ast.ForStmt:
-			c.wordLoop(x)
-		case *ast.RangeStmt:
-			c.tail(x)
-		case *ast.ReturnStmt:
-			if !top || len(x.Results) != 1 || !c.isObj(x.Results[0], c.key) {
-				c.fail(x, "return is not `return key` at top level")
-			}
-		default:
-			c.fail(s, "unrecognised statement in maskGo")
-		}
-	}
-}
-
-func (c *shapeCtx) isKey64(e ast.Expr) bool {
-	be, ok := ast.Unparen(e).(*ast.BinaryExpr)
-	if !ok || be.Op != token.OR {
-		return false
-	}
-	conv := func(e ast.Expr) bool {
-		call, ok := ast.Unparen(e).(*ast.CallExpr)
-		if !ok || len(call.Args) != 1 || !c.isObj(call.Args[0], c.key) {
-			return false
-		}
-		tv, ok := c.info.Types[call.Fun]
-		return ok && tv.IsType() && types.Identical(tv.Type, types.Typ[types.Uint64])
-	}
-	shifted := func(e ast.Expr) bool {
-		sh, ok := ast.Unparen(e).(*ast.BinaryExpr)
-		if !ok || sh.Op != token.SHL || !conv(sh.X) {
-			return false
-		}
-		n, ok := c.constInt(sh.Y)
-		return ok && n == 32
-	}
-	return (shifted(be.X) && conv(be.Y)) || (shifted(be.Y) && conv(be.X))
-}
-
-func (c *shapeCtx) tail(rs *ast.RangeStmt) {
-	if !c.isObj(rs.X, c.b) || rs.Value != nil || rs.Key == nil {
-		c.fail(rs, "tail loop is not `for i := range b`")
-		return
-	}
-	iid, _ := rs.Key.(*ast.Ident)
-	iobj := c.info.Defs[iid]
-	if len(rs.Body.List) != 2 {
-		c.fail(rs, "tail loop body is not {b[i] ^= byte(key); key = bits.RotateLeft32(key, -8)}")
-		return
-	}
-	a, ok := rs.Body.List[0].(*ast.AssignStmt)
-	okX := false
-	if ok && a.Tok == token.XOR_ASSIGN && len(a.Lhs) == 1 {
-		if ix, ok := a.Lhs[0].(*ast.IndexExpr); ok && c.isObj(ix.X, c.b) && c.isObj(ix.Index, iobj) {
-			if call, ok := a.Rhs[0].(*ast.CallExpr); ok && len(call.Args) == 1 && c.isObj(call.Args[0], c.key) {
-				if tv, ok := c.info.Types[call.Fun]; ok && tv.IsType() && types.Identical(tv.Type, types.Typ[types.Uint8]) {
-					okX = true
+				if f := x.Call.StaticCallee(); f != nil && f.Pkg != nil && f.Pkg.Pkg.Path() == "math/bits" {
+					continue // pure
+				}
+				c.fail(x.Pos(), "call outside the certified pattern: %s", x.String())
+			case *ssa.Return:
+				switch {
+				case cont != nil && len(x.Results) == 1:
+					if call, ok := x.Results[0].(*ssa.Call); !ok || call.Call.StaticCallee() != cont {
+						c.fail(x.Pos(), "return does not pass on the helper's result")
+					}
+				case tailK != nil && len(x.Results) == 1 && x.Results[0] == ssa.Value(tailK):
+				default:
+					c.fail(x.Pos(), "return value is not the loop-carried key of the byte loop")
 				}
 			}
 		}
 	}
-	if !okX {
-		c.fail(rs.Body.List[0], "tail does not do b[i] ^= byte(key)")
-	}
-	rot, ok := rs.Body.List[1].(*ast.AssignStmt)
-	okR := false
-	if ok && rot.Tok == token.ASSIGN && len(rot.Lhs) == 1 && c.isObj(rot.Lhs[0], c.key) {
-		if call, ok := rot.Rhs[0].(*ast.CallExpr); ok && len(call.Args) == 2 && c.isObj(call.Args[0], c.key) {
-			if sel, ok := call.Fun.(*ast.SelectorExpr); ok && sel.Sel.Name == "RotateLeft32" {
-				if id, ok := sel.X.(*ast.Ident); ok {
-					if pn, ok := c.info.Uses[id].(*types.PkgName); ok && pn.Imported().Path() == "math/bits" {
-						if n, ok := c.constInt(call.Args[1]); ok && n == -8 {
-							okR = true
+	// the byte loop (or the finishing helper) works on the slice value every word loop flows into
+	if tailB != nil {
+		derives := map[ssa.Value]bool{tailB: true}
+		for changed := true; changed; {
+			changed = false
+			for v := range derives {
+				if ph, ok := v.(*ssa.Phi); ok {
+					for _, e := range ph.Edges {
+						if isB[e] && !derives[e] {
+							derives[e] = true
+							changed = true
 						}
 					}
 				}
 			}
 		}
+		for l, ph := range wordPhi {
+			if !derives[ph] {
+				c.fail(l.head.Instrs[0].Pos(), "the slice advanced by this word loop does not flow into the byte loop (stale slice used afterwards)")
+			}
+		}
+		for v := range isB {
+			if ph, ok := v.(*ssa.Phi); ok && v != tailB {
+				for _, e := range ph.Edges {
+					if e == tailB {
+						c.fail(ph.Pos(), "a word loop continues from the slice the byte loop runs over")
+					}
+				}
+			}
+		}
 	}
-	if !okR {
-		c.fail(rs.Body.List[1], "tail does not rotate with key = bits.RotateLeft32(key, -8)")
+	if byteLoop == nil && cont == nil {
+		c.fail(fn.Pos(), "no byte loop for the remaining 0..3 bytes")
+	}
+	if byteLoop != nil {
+		// nothing after the byte loop but the return
+		seen := map[*ssa.BasicBlock]bool{}
+		var stack []*ssa.BasicBlock
+		for _, s := range byteLoop.head.Succs {
+			if !byteLoop.blocks[s] {
+				stack = append(stack, s)
+			}
+		}
+		for len(stack) > 0 {
+			x := stack[len(stack)-1]
+			stack = stack[:len(stack)-1]
+			if seen[x] {
+				continue
+			}
+			seen[x] = true
+			if inLoop[x] != nil {
+				c.fail(x.Instrs[0].Pos(), "a loop follows the byte loop")
+			}
+			stack = append(stack, x.Succs...)
+		}
+	}
+	if cont != nil {
+		c.run(cont, depth+1)
 	}
 }
 
@@ -339,59 +651,14 @@ func c17shape(p *Program, r *Report, rule string) {
 	if fn == nil {
 		return
 	}
-	decl := p.FuncDecl(fn)
-	info := p.InfoFor(fn)
-	if decl == nil || info == nil {
-		r.Undecide("%s: no syntax for maskGo", rule)
-		return
-	}
-	c := &shapeCtx{p: p, info: info}
-	params := decl.Type.Params.List
-	if len(params) == 2 && len(params[0].Names) == 1 && len(params[1].Names) == 1 {
-		c.b = info.Defs[params[0].Names[0]]
-		c.key = info.Defs[params[1].Names[0]]
-	}
-	if c.b == nil || c.key == nil || c.b.Type().String() != "[]byte" || c.key.Type().String() != "uint32" {
-		r.Undecide("%s: maskGo's signature is not (b []byte, key uint32) uint32", rule)
-		return
-	}
-	c.stmts(decl.Body.List, true)
-	// last top-level statement is the return, tail loop right before it
-	n := len(decl.Body.List)
-	if n < 2 {
-		c.fail(decl, "body too short")
-	} else {
-		if _, ok := decl.Body.List[n-1].(*ast.ReturnStmt); !ok {
-			c.fail(decl.Body.List[n-1], "maskGo does not end with return key")
-		}
-		if _, ok := decl.Body.List[n-2].(*ast.RangeStmt); !ok {
-			c.fail(decl.Body.List[n-2], "the byte-wise tail loop is not the last loop")
-		}
-	}
-	// key assigned nowhere else (only in the tail), b only advanced in loops: count assignments to key
-	nKeyAssign := 0
-	ast.Inspect(decl.Body, func(n ast.Node) bool {
-		if a, ok := n.(*ast.AssignStmt); ok {
-			for _, l := range a.Lhs {
-				if c.isObj(l, c.key) {
-					nKeyAssign++
-				}
-			}
-		}
-		if u, ok := n.(*ast.IncDecStmt); ok && c.isObj(u.X, c.key) {
-			nKeyAssign++
-		}
-		return true
-	})
-	if nKeyAssign != 1 {
-		c.fail(decl, "key is assigned %d times (want exactly once, in the tail)", nKeyAssign)
-	}
-	ok := len(c.errs) == 0 && c.nLoops >= 1
+	c := &maskCert{p: p}
+	c.run(fn, 0)
+	ok := len(c.errs) == 0
 	r.UseFunc("maskGo")
 	r.Evaluations += c.nPairs + c.nLoops
 	r.Check(rule, "maskGo", "certificate (i)-(iv)", p.FuncPos(fn), ok,
-		"maskGo consists of: key64 = key replicated; word loops `for len(b) >= N` whose load/xor/store pairs tile [0,N) exactly once with the right key and end with b = b[N:] (N ≡ 0 mod 4); a byte-wise tail with rotate-right-8; return key",
-		firstNonEmpty(strings.Join(c.errs, "; "), fmt.Sprintf("%d word loops, %d load/xor/store pairs, tail and return verified", c.nLoops, c.nPairs)))
+		"maskGo consists of: word loops entered under len(b') >= N (N ≡ 0 mod 4) whose LittleEndian load/xor/store triples tile [0,N) exactly once with the key (replicated for 64-bit words) and continue with b'[N:]; one byte loop over the remaining slice with rotate-right-8 of the loop-carried key; that key is returned; nothing else has an effect",
+		firstNonEmpty(strings.Join(c.errs, "; "), fmt.Sprintf("%d word loops, %d load/xor/store triples, byte loop and return verified", c.nLoops, c.nPairs)))
 	// mask forwards to maskGo; maskAsm unreachable
 	if m := p.Func("mask"); m != nil {
 		p.forAllPaths(r, "C17.asm", m, "mask forwards to maskGo", Opts{}, "mask(b, key) returns maskGo(b, key) in this build configuration", func(pa *Path) (bool, string) {
